@@ -317,6 +317,8 @@ def harness_file(name):
     """harness source file (relative to the harness directory) that defines `name`"""
     if name.startswith("@builder::verif_kani_in_builder"):
         return "in_builder.rs"
+    if name.startswith("@store_impl::verif_kani_in_store"):
+        return "in_store.rs"
     if name.startswith("@"):
         return name[1:].split("::")[-2] + ".rs"
     return name.split("::")[0] + ".rs"
